@@ -710,11 +710,13 @@ def correspond(ctx):
     for k in range(n_model):
         kind = KINDS[k % len(KINDS)]
         exact = (k // len(KINDS)) % 2 == 0
+        st = rng.getstate()
         try:
             case, term = build_case(rng, kind, exact)
         except Exception as e:      # the implementation raised where a well-formed call must not (ill-formed maps are caught inside)
             corr.count("model-error-" + kind)
-            corr.failures.append({"stream": "model-" + kind, "case": {"kind": kind, "exact": exact},
+            # (the inputs are drawn inside build_case: the generator state is recorded, replay() draws them again)
+            corr.failures.append({"stream": "model-" + kind, "case": {"kind": kind, "exact": exact, "rng_state": [st[0], list(st[1]), st[2]]},
                                   "what": "implementation raised %s while a model case (%s) was built: %s" % (type(e).__name__, kind, e), "observed": {}})
             continue
         cases.append(case)
@@ -844,16 +846,28 @@ def replay(ctx, rp):
         a = np.array(case["x"], dtype=float)
         (h, w), (br, bc) = case["shape"], case["block"]
         try:
-            view = blockwise_expand(a.copy(), (br, bc), False, case["require_aligned_blocks"])
+            a_in = a.copy()
+            view = blockwise_expand(a_in, (br, bc), False, case["require_aligned_blocks"])
             blockwise_expand(1.0 - a, (br, bc), False, case["require_aligned_blocks"])
             back = blockwise_contract(np.array(view))
             want = a[:(h // br) * br, :(w // bc) * bc]
-            fails = not (back.shape == want.shape and np.array_equal(back, want)) or bool(case["require_aligned_blocks"] and (h % br or w % bc))
+            fails = not (back.shape == want.shape and np.array_equal(back, want)) or bool(case["require_aligned_blocks"] and (h % br or w % bc)) \
+                or not np.array_equal(a_in, a)
             return {"case": case, "observed": {"shape_back": list(back.shape)}, "fails": bool(fails)}
         except AssertionError:
             return {"case": case, "observed": "AssertionError", "fails": not (case["require_aligned_blocks"] and (h % br or w % bc))}
         except Exception as e:
             return {"case": case, "observed": "%s: %s" % (type(e).__name__, e), "fails": True}
+    if isinstance(case, dict) and case.get("kind") in KINDS and "rng_state" in case:
+        import random
+        r = random.Random()
+        v, internal, g = case["rng_state"]
+        r.setstate((v, tuple(internal), g))
+        try:
+            build_case(r, case["kind"], case["exact"])
+        except Exception as e:
+            return {"case": {"kind": case["kind"], "exact": case["exact"]}, "observed": "%s: %s" % (type(e).__name__, e), "fails": True}
+        return {"case": {"kind": case["kind"], "exact": case["exact"]}, "observed": "no exception", "fails": False}
     if not isinstance(case, dict) or "mill" not in case or "c" not in case:
         return {"note": "this replay records broken proof obligations / a model disagreement without a failing input of the "
                         "property; re-run ./check C13", "fails": True}
